@@ -20,7 +20,7 @@ func lemma_C03_CP2(t uint8, t1 uint16, v1 []byte, t2 uint16, v2 []byte) {
 	x.ConfigurationAttribute.BuildConfigurationAttribute(t2, v2)
 	fm := verifFrameBegin()
 	b, err := x.Marshal()
-	verifFrameEnd(fm, "C20/CP/marshal-writes-nothing-that-existed-before")
+	verifFrameEnd(fm, "C03+C20/CP/marshal-writes-nothing-that-existed-before")
 	verifAssert(err == nil, "C03/CP/marshal-ok")
 	verifAssert(x.ConfigurationType == t && len(x.ConfigurationAttribute) == 2 && x.ConfigurationAttribute[0].Type == t1 && x.ConfigurationAttribute[1].Type == t2 &&
 		verifBytesEq(x.ConfigurationAttribute[0].Value, v1) && verifBytesEq(x.ConfigurationAttribute[1].Value, v2), "C20/CP/marshal-leaves-the-payload-unchanged")
@@ -110,7 +110,7 @@ func lemma_C03_Delete2(proto uint8, s1, s2 uint32) {
 	x := &Delete{ProtocolID: proto, SPISize: 4, NumberOfSPI: 2, SPIs: []uint32{s1, s2}}
 	fm := verifFrameBegin()
 	b, err := x.Marshal()
-	verifFrameEnd(fm, "C20/Delete/marshal-writes-nothing-that-existed-before")
+	verifFrameEnd(fm, "C03+C20/Delete/marshal-writes-nothing-that-existed-before")
 	verifAssert(err == nil, "C03/Delete/marshal-ok")
 	verifAssert(len(b) == 12 && b[0] == proto && b[1] == 4 && b[2] == 0 && b[3] == 2, "C05/Delete/header")
 	verifAssert(uint32(b[4])<<24|uint32(b[5])<<16|uint32(b[6])<<8|uint32(b[7]) == s1 && uint32(b[8])<<24|uint32(b[9])<<16|uint32(b[10])<<8|uint32(b[11]) == s2, "C05/Delete/spis-big-endian")
@@ -200,7 +200,7 @@ func verifTSi2(six1 bool, p1 uint8, sp1, ep1 uint16, sa1, ea1 []byte, six2 bool,
 	x.TrafficSelectors = append(x.TrafficSelectors, verifSelector(six1, p1, sp1, ep1, sa1, ea1), verifSelector(six2, p2, sp2, ep2, sa2, ea2))
 	fm := verifFrameBegin()
 	b, err := x.Marshal()
-	verifFrameEnd(fm, "C20/TSi/marshal-writes-nothing-that-existed-before")
+	verifFrameEnd(fm, "C03+C20/TSi/marshal-writes-nothing-that-existed-before")
 	verifAssert(err == nil, "C03/TSi/marshal-ok")
 	verifAssert(verifSelectorEq(x.TrafficSelectors[0], six1, p1, sp1, ep1, sa1, ea1) && verifSelectorEq(x.TrafficSelectors[1], six2, p2, sp2, ep2, sa2, ea2), "C20/TSi/marshal-leaves-the-payload-unchanged")
 	verifAssert(len(b) == 4+8+2*n1+8+2*n2 && b[0] == 2 && b[1] == 0 && b[2] == 0 && b[3] == 0, "C05/TSi/count-and-reserved-zero")
@@ -223,7 +223,7 @@ func verifTSr2(six1 bool, p1 uint8, sp1, ep1 uint16, sa1, ea1 []byte, six2 bool,
 	x.TrafficSelectors = append(x.TrafficSelectors, verifSelector(six1, p1, sp1, ep1, sa1, ea1), verifSelector(six2, p2, sp2, ep2, sa2, ea2))
 	fm := verifFrameBegin()
 	b, err := x.Marshal()
-	verifFrameEnd(fm, "C20/TSr/marshal-writes-nothing-that-existed-before")
+	verifFrameEnd(fm, "C03+C20/TSr/marshal-writes-nothing-that-existed-before")
 	verifAssert(err == nil, "C03/TSr/marshal-ok")
 	verifAssert(verifSelectorEq(x.TrafficSelectors[0], six1, p1, sp1, ep1, sa1, ea1) && verifSelectorEq(x.TrafficSelectors[1], six2, p2, sp2, ep2, sa2, ea2), "C20/TSr/marshal-leaves-the-payload-unchanged")
 	verifAssert(len(b) == 4+8+2*n1+8+2*n2 && b[0] == 2 && b[1] == 0 && b[2] == 0 && b[3] == 0, "C05/TSr/count-and-reserved-zero")
@@ -315,7 +315,7 @@ func lemma_C03_SA_tv(num, proto uint8, id1, at, av, id2 uint16) {
 	p.IntegrityAlgorithm.BuildTransform(TypeIntegrityAlgorithm, id2, nil, nil, nil)
 	fm := verifFrameBegin()
 	b, err := x.Marshal()
-	verifFrameEnd(fm, "C20/SA/marshal-writes-nothing-that-existed-before")
+	verifFrameEnd(fm, "C03+C20/SA/marshal-writes-nothing-that-existed-before")
 	verifAssert(err == nil, "C03/SA/marshal-ok")
 	verifAssert(len(x.Proposals) == 1 && len(p.EncryptionAlgorithm) == 1 && len(p.IntegrityAlgorithm) == 1 && p.ProposalNumber == num && p.ProtocolID == proto &&
 		p.EncryptionAlgorithm[0].TransformID == id1 && p.EncryptionAlgorithm[0].AttributeType == at && p.EncryptionAlgorithm[0].AttributeValue == av && p.IntegrityAlgorithm[0].TransformID == id2, "C20/SA/marshal-leaves-the-payload-unchanged")
@@ -355,7 +355,7 @@ func lemma_C03_SA_tlv(num, proto uint8, id1, at uint16, vv []byte) {
 	p.PseudorandomFunction.BuildTransform(TypePseudorandomFunction, id1, &at, nil, vv)
 	fm := verifFrameBegin()
 	b, err := x.Marshal()
-	verifFrameEnd(fm, "C20/SA/tlv/marshal-writes-nothing-that-existed-before")
+	verifFrameEnd(fm, "C03+C20/SA/tlv/marshal-writes-nothing-that-existed-before")
 	verifAssert(err == nil, "C03/SA/tlv-marshal-ok")
 	verifAssert(len(b) == 8+12+len(vv) && b[0] == 0 && b[1] == 0 && int(b[2])<<8|int(b[3]) == len(b) && b[4] == num && b[5] == proto && b[6] == 0 && b[7] == 1, "C05/SA/tlv-proposal-header")
 	verifAssert(b[8] == 0 && b[9] == 0 && int(b[10])<<8|int(b[11]) == 12+len(vv) && b[12] == 2 && b[13] == 0 && b[14] == byte(id1>>8) && b[15] == byte(id1), "C05/SA/tlv-transform-header")
@@ -398,7 +398,7 @@ func lemma_C03_SA_spi(num, proto uint8, spi []byte, tt uint8, id uint16) {
 	}
 	fm := verifFrameBegin()
 	b, err := x.Marshal()
-	verifFrameEnd(fm, "C20/SA/spi/marshal-writes-nothing-that-existed-before")
+	verifFrameEnd(fm, "C03+C20/SA/spi/marshal-writes-nothing-that-existed-before")
 	verifAssert(err == nil, "C03/SA/spi-marshal-ok")
 	s := len(spi)
 	verifAssert(len(b) == 16+s && b[0] == 0 && b[1] == 0 && int(b[2])<<8|int(b[3]) == len(b) && b[4] == num && b[5] == proto && int(b[6]) == s && b[7] == 1 && verifBytesEq(b[8:8+s], spi), "C05/SA/spi-proposal-header")
